@@ -38,6 +38,95 @@ def load_baseline():
     return set(d["functions"]), set(d["constants"])
 
 
+def fingerprint(fn: ast.AST) -> Set[str]:
+    """What a function mentions (callee names, attribute names, short constants): survives renaming the function itself."""
+    toks = set()
+    for n in ast.walk(fn):
+        if isinstance(n, ast.Call):
+            f = n.func
+            toks.add("call:" + (f.id if isinstance(f, ast.Name) else f.attr if isinstance(f, ast.Attribute) else "?"))
+        elif isinstance(n, ast.Attribute):
+            toks.add("attr:" + n.attr)
+        elif isinstance(n, ast.Constant) and isinstance(n.value, (int, float, str)) and not isinstance(n.value, bool):
+            if isinstance(n.value, str) and len(n.value) > 40:
+                continue
+            toks.add("const:" + repr(n.value))
+    return toks
+
+
+def recover_renamed_anchors(project) -> List[str]:
+    """A private anchor function that vanished while a new function with the same parameters and (nearly) the same
+    content appeared in the same module / class was *renamed*: the rename is undone on the in-memory trees (definition,
+    references, import aliases) so that the rules still find their anchor. Ambiguous or dissimilar candidates are
+    left alone (the rule that needs the anchor then reports it vanished)."""
+    try:
+        with open(BASELINE) as fh:
+            d = json.load(fh)
+    except OSError:
+        return []
+    base = set(d["functions"])
+    params = d.get("params", {})
+    prints = {q: set(v) for q, v in d.get("fingerprints", {}).items()}
+    missing = [q for q in sorted(base) if q not in project.funcs and ".<locals>." not in q]
+    new = [q for q in sorted(project.funcs) if q not in base and ".<locals>." not in q]
+    if not missing or not new:
+        return []
+    pairs = []
+    for old in missing:
+        cont = old.rpartition(".")[0]
+        for n in new:
+            if n.rpartition(".")[0] != cont or project.funcs[n].params() != params.get(old):
+                continue
+            a, b = prints.get(old, set()), fingerprint(project.funcs[n].node)
+            sim = len(a & b) / max(1, len(a | b))
+            pairs.append((sim, old, n))
+    pairs.sort(reverse=True)
+    renames: Dict[str, str] = {}
+    used_old = set()
+    for sim, old, n in pairs:
+        if sim < 0.6 or old in used_old or n in renames:
+            continue
+        # unambiguous: no other candidate for this anchor (or this new function) comes close
+        rivals = [s2 for (s2, o2, n2) in pairs if (o2 == old) != (n2 == n) and s2 > sim - 0.15]
+        if rivals:
+            continue
+        renames[n] = old
+        used_old.add(old)
+    if not renames:
+        return []
+    from .resolve import Scope
+    log = []
+    # references first (while the index still knows the new names), then the definitions
+    for m in project.modules.values():
+        scopes = [(None, Scope(project, None, m), [st for st in m.tree.body if not isinstance(st, (ast.FunctionDef, ast.AsyncFunctionDef, ast.ClassDef))])]
+        for fi in m.funcs.values():
+            scopes.append((fi, Scope(project, fi), None))
+        for fi, sc, stmts in scopes:
+            nodes = list(own_walk(fi.node)) if fi is not None else [x for st in stmts for x in ast.walk(st)]
+            for n in nodes:
+                if isinstance(n, ast.Name) and isinstance(n.ctx, ast.Load):
+                    q = sc.resolve_name(n.id)
+                    if q in renames and n.id == q.rsplit(".", 1)[-1] and q.rpartition(".")[0] == m.name:
+                        n.id = renames[q].rsplit(".", 1)[-1]
+                elif isinstance(n, ast.Attribute):
+                    q = sc.resolve(n) or sc.resolve_member(n)
+                    if q in renames and n.attr == q.rsplit(".", 1)[-1]:
+                        n.attr = renames[q].rsplit(".", 1)[-1]
+        for n in ast.walk(m.tree):
+            if isinstance(n, ast.ImportFrom):
+                for a in n.names:
+                    tgt = m.imports.get(a.asname or a.name)
+                    for newq, oldq in renames.items():
+                        if a.name == newq.rsplit(".", 1)[-1] and tgt is not None and Scope(project, None, m).canonical(tgt) == newq:
+                            a.asname = a.asname or a.name
+                            a.name = oldq.rsplit(".", 1)[-1]
+    for newq, oldq in renames.items():
+        project.funcs[newq].node.name = oldq.rsplit(".", 1)[-1]
+        log.append(f"anchor {oldq} was renamed to {newq.rsplit('.', 1)[-1]}: analysed under its original name")
+    project.reindex()
+    return log
+
+
 # ------------------------------------------------------------------------------------------------ helpers
 def is_const_expr(e: ast.AST, depth: int = 0) -> bool:
     if depth > 6:
@@ -839,7 +928,9 @@ def normalize(project) -> List[str]:
         base_funcs, base_consts = load_baseline()
     except OSError:
         return []
+    renamed = recover_renamed_anchors(project)
     inl = Inliner(project, base_funcs, base_consts)
+    inl.log += renamed
     if not inl.new_funcs and not inl.new_consts:
         # still normalise '<constant>'.format(...) templates
         pass
